@@ -34,7 +34,7 @@ static void add_continuation(Rng &r, Plan &p, int dir) {
     for (int i = 0; i < n; i++) {
         switch (r.below(6)) {
         case 0: case 1: p.ops.push_back(Op("send", dir, LENS[r.below(5)])); break;                          // honest peer keeps talking
-        case 2: p.ops.push_back(Op("send", 1 - dir, LENS[r.below(5)], (int64_t) r.below(2))); break;        // the dead endpoint's application tries to send
+        case 2: { static const int ROUTE[] = { 0, 1, 2, 2, 4, 4 }; p.ops.push_back(Op("send", 1 - dir, LENS[r.below(5)], ROUTE[r.below(6)])); break; }        // the dead endpoint's application tries to send: EncodeToOutdata / GetWritebuf+EncodeWritebuf / EncodeToUserBuf / the second half of a write begun before death
         case 3: p.ops.push_back(Op("inject", dir, (int64_t) r.below(100), 0, 0, "replay")); break;           // e.g. the original of the corrupted record
         case 4: p.ops.push_back(Op("inject", dir, (int64_t) r.below(7), (int64_t) r.below(50), 0, "garbage")); break;
         case 5: p.ops.push_back(Op("pump")); break;
@@ -77,6 +77,7 @@ static Plan c15_gen(uint64_t seed, int tier, uint64_t index) {
         int park = (int) r.below(12);
         if (park) { p.ops.push_back(Op("steps", park)); }
     }
+    if (established && r.chance(1, 3)) { p.ops.push_back(Op("wbegin", 1 - dir, LENS[r.below(5)])); }     // the victim's application is half-way through a write when the session dies
     add_trigger(r, p, dir, established);
     add_continuation(r, p, dir);
     return p;
@@ -99,6 +100,29 @@ static std::vector<Plan> c15_fixed(int tier) {
                     p.ops.push_back(Op("inject", dir, 1 /* level fatal */, descs[di], 0, "alert"));
                     p.ops.push_back(Op("hs"));
                     p.ops.push_back(Op("send", dir, 20)); p.ops.push_back(Op("send", 1 - dir, 20)); p.ops.push_back(Op("pump"));
+                    v.push_back(p);
+                }
+            }
+        }
+    }
+    // every application write route of a dead session: EncodeToOutdata, GetWritebuf+EncodeWritebuf, EncodeToUserBuf, and the second half of a
+    // write that was begun (GetWritebuf) while the session was alive; death by the peer's close_notify, by a corrupted record, by a forged fatal alert
+    for (int ver = 0; ver < 5; ver++) {
+        for (int victim = 0; victim < 2; victim++) {
+            for (int death = 0; death < 3; death++) {
+                static const int ROUTE[] = { 0, 1, 2, 4 };
+                for (int ri = 0; ri < 4; ri++) {
+                    Plan p; p.seed = 970000 + (uint64_t) (((ver * 2 + victim) * 3 + death) * 4 + ri);
+                    p.cfg["ver"] = ver;
+                    if (ver == 2) { p.cfg["suite"] = TLS_AES_128_GCM_SHA256; p.cfg["sid_kind"] = KK_EC256; } else { p.cfg["suite"] = (death & 1) ? TLS_ECDHE_ECDSA_WITH_AES_128_CBC_SHA : TLS_ECDHE_ECDSA_WITH_AES_128_GCM_SHA256; if (ver == 0 || ver == 3) { p.cfg["suite"] = TLS_ECDHE_ECDSA_WITH_AES_128_CBC_SHA; } }
+                    p.ops.push_back(Op("hs")); p.ops.push_back(Op("send", victim, 40)); p.ops.push_back(Op("send", 1 - victim, 40)); p.ops.push_back(Op("pump"));
+                    if (ROUTE[ri] == 4) { p.ops.push_back(Op("wbegin", victim, 100)); }
+                    if (death == 0) { p.ops.push_back(Op("close", 1 - victim)); }
+                    else if (death == 1) { p.ops.push_back(Op("arm", 1 - victim, 333, 5, 0, "flip")); p.ops.push_back(Op("send", 1 - victim, 64)); }
+                    else { p.ops.push_back(Op("inject", 1 - victim, 1, 6, 2, "alert")); }
+                    p.ops.push_back(Op("pump"));
+                    p.ops.push_back(Op("send", victim, 100, ROUTE[ri])); p.ops.push_back(Op("pump"));
+                    p.ops.push_back(Op("send", victim, 10, ROUTE[ri] == 4 ? 2 : ROUTE[ri])); p.ops.push_back(Op("pump"));
                     v.push_back(p);
                 }
             }
